@@ -32,7 +32,9 @@ import (
 type opDesc struct {
 	K     string `json:"k"`               // create|update|delete|value|exists
 	N     int    `json:"n,omitempty"`     // payload
-	Veto  bool   `json:"veto,omitempty"`  // the BeforeChange callback vetoes this change (marker field set)
+	Veto  bool   `json:"veto,omitempty"`  // some BeforeChange listener vetoes this change
+	VetoAt int   `json:"veto_at,omitempty"` // 1-based index of the first vetoing listener (external per-call flag; 0 with Veto = 1)
+	Mark  bool   `json:"mark,omitempty"`  // the value carries the marker field listener 1 vetoes on
 	Wrong int    `json:"wrong,omitempty"` // 0 = value of the store's type, 1.. = some other Go type
 	NewID string `json:"newid,omitempty"` // what NewID returns if it is called (mockstore)
 }
@@ -48,6 +50,7 @@ type caseDesc struct {
 	Typed        bool        `json:"typed,omitempty"`
 	Prefix       string      `json:"prefix,omitempty"`
 	BeforeChange bool        `json:"before_change,omitempty"`
+	Listeners    int         `json:"listeners,omitempty"` // number of BeforeChange listeners (0 with BeforeChange = 1)
 	NewID        bool        `json:"newid,omitempty"`
 	Txns         []txnDesc   `json:"txns,omitempty"`       // sequential history
 	Goroutines   [][]txnDesc `json:"goroutines,omitempty"` // concurrent history: one list per goroutine
@@ -84,22 +87,59 @@ type otherStruct struct {
 	N int `json:"n"`
 }
 
+// nl is the number of BeforeChange listeners of a store configuration.
+func (cd caseDesc) nl() int {
+	if cd.Store != "badger" || !cd.BeforeChange {
+		return 0
+	}
+	if cd.Listeners < 1 {
+		return 1
+	}
+	return cd.Listeners
+}
+
+// vetoAt is the 1-based index of the first listener that vetoes the call (0 = none).
+func (o opDesc) vetoAt(nl int) int {
+	if nl == 0 || !(o.K == "create" || o.K == "update" || o.K == "delete") {
+		return 0
+	}
+	if o.Mark && o.K != "delete" && o.Wrong == 0 {
+		return 1
+	}
+	if o.VetoAt > 0 && o.VetoAt <= nl {
+		return o.VetoAt
+	}
+	if o.Veto && o.VetoAt == 0 && !o.Mark {
+		return 1
+	}
+	return 0
+}
+
+// Values of an untyped store only use types that survive the JSON round trip
+// unchanged (float64, string, bool, nested maps and slices), so that a value written
+// again is deep-equal to the stored one.
 func mkValue(typed bool, o opDesc) interface{} {
 	switch o.Wrong {
 	case 0:
 		if typed {
-			return item{N: o.N, V: o.Veto}
+			return item{N: o.N, V: o.Mark}
 		}
-		m := map[string]interface{}{"n": o.N}
-		if o.Veto {
+		m := map[string]interface{}{"n": float64(o.N)}
+		switch o.N % 3 {
+		case 1:
+			m["t"] = "s" + strconv.Itoa(o.N)
+		case 2:
+			m["m"] = map[string]interface{}{"k": true, "l": []interface{}{"x", 1.5}}
+		}
+		if o.Mark {
 			m["v"] = true
 		}
 		return m
 	case 1:
 		if typed {
-			return map[string]interface{}{"n": o.N}
+			return map[string]interface{}{"n": float64(o.N)}
 		}
-		return item{N: o.N, V: o.Veto}
+		return item{N: o.N, V: o.Mark}
 	case 2:
 		return "x" + strconv.Itoa(o.N)
 	case 3:
@@ -159,10 +199,18 @@ type cbRec struct {
 	after  *string
 }
 
+type bcRec struct {
+	k      int
+	id     string
+	before *string
+	after  *string
+}
+
 type activeOp struct {
 	desc  opDesc
 	isDel bool
 	cbs   []cbRec
+	bcs   []bcRec
 }
 
 var errVeto = errors.New("vetoed by BeforeChange")
@@ -219,19 +267,16 @@ func (r *rig) onChange(id string, before, after interface{}) {
 	}
 }
 
-func (r *rig) beforeChange(id string, before, after interface{}) error {
+// beforeChange is listener k (1-based, registration order).  It vetoes when the call's
+// external flag names it, and listener 1 also when the value carries the marker field.
+func (r *rig) beforeChange(k int, id string, before, after interface{}) error {
 	a := r.current()
 	if a == nil {
 		r.note("BeforeChange ran on a goroutine that is not inside a mutating call (id " + id + ")")
 		return nil
 	}
-	if after != nil {
-		if marker(after) {
-			return errVeto
-		}
-		return nil
-	}
-	if a.desc.Veto {
+	a.bcs = append(a.bcs, bcRec{k, id, optJSON(before), optJSON(after)})
+	if a.desc.vetoAt(r.cd.nl()) == k || (k == 1 && after != nil && marker(after)) {
 		return errVeto
 	}
 	return nil
@@ -255,8 +300,9 @@ func newRig(cd caseDesc, db *badger.DB) *rig {
 			st.SetType(item{})
 		}
 		st.SetPrefix(cd.Prefix)
-		if cd.BeforeChange {
-			st.BeforeChange(r.beforeChange)
+		for k := 1; k <= cd.nl(); k++ {
+			k := k
+			st.BeforeChange(func(id string, before, after interface{}) error { return r.beforeChange(k, id, before, after) })
 		}
 		st.OnChange(r.onChange)
 		r.st = st
@@ -278,6 +324,7 @@ type obs struct {
 	res  string // Coq term of type result
 	cls  string
 	cbs  []cbRec
+	bcs  []bcRec
 }
 
 func classify(err error) (string, string) {
@@ -314,6 +361,7 @@ func (r *rig) call(txn interface{}, id string, o opDesc) (ob obs) {
 		delete(r.active, g)
 		r.mu.Unlock()
 		ob.cbs = a.cbs
+		ob.bcs = a.bcs
 	}()
 	rt := txn.(store.ReadTxn)
 	switch o.K {
@@ -408,7 +456,7 @@ func optS(s *string) string {
 
 func opTerm(cd caseDesc, ob obs) string {
 	o := ob.desc
-	env := fmt.Sprintf("(Env %s %s %s)", Bool(o.Wrong != 0), Bool(o.Veto), B(o.NewID))
+	env := fmt.Sprintf("(Env %s %s %s)", Bool(o.Wrong != 0), Nat(o.vetoAt(cd.nl())), B(o.NewID))
 	var op string
 	switch o.K {
 	case "create":
@@ -426,13 +474,21 @@ func opTerm(cd caseDesc, ob obs) string {
 	for i, c := range ob.cbs {
 		cbs[i] = fmt.Sprintf("(%s,%s,%s)", B(c.id), optS(c.before), optS(c.after))
 	}
-	return fmt.Sprintf("IO %s %s %s", op, ob.res, List(cbs))
+	return fmt.Sprintf("IO %s %s %s %s", op, ob.res, List(cbs), bcTerms(ob.bcs))
+}
+
+func bcTerms(bcs []bcRec) string {
+	t := make([]string, len(bcs))
+	for i, c := range bcs {
+		t[i] = fmt.Sprintf("(%s,%s,%s,%s)", Nat(c.k), B(c.id), optS(c.before), optS(c.after))
+	}
+	return List(t)
 }
 
 func caseTerm(cd caseDesc, runs []txnRun, final []string) string {
 	var kind string
 	if cd.Store == "badger" {
-		kind = "(SBadger " + B(cd.Prefix) + ")"
+		kind = "(SBadger " + B(cd.Prefix) + " " + Nat(cd.nl()) + ")"
 	} else {
 		kind = "(SMock " + Bool(cd.NewID) + ")"
 	}
@@ -523,7 +579,8 @@ type result struct {
 	dist map[string]int
 }
 
-func tally(dist map[string]int, runs []txnRun) (succ, ryw int) {
+func tally(cd caseDesc, dist map[string]int, runs []txnRun) (succ, ryw int) {
+	stored := map[string]string{} // metric only: last successfully written value per id
 	for _, tr := range runs {
 		if len(tr.obs) > 1 {
 			dist["txn_multi_op"]++
@@ -536,6 +593,21 @@ func tally(dist map[string]int, runs []txnRun) (succ, ryw int) {
 			}
 			dist["res_"+cls]++
 			dist["callbacks"] += len(ob.cbs)
+			dist["bc_calls"] += len(ob.bcs)
+			if ob.desc.K == "update" || ob.desc.K == "create" {
+				val := canon(mkValue(cd.Typed, ob.desc))
+				if cur, ok := stored[ob.id]; ok && cur == val && ob.desc.K == "update" && ob.desc.Wrong == 0 {
+					dist["update_to_stored_value"]++
+					if ob.desc.vetoAt(cd.nl()) > 0 {
+						dist["update_to_stored_value_vetoed"]++
+					}
+				}
+				if ob.cls == "ok" {
+					stored[ob.id] = val
+				}
+			} else if ob.desc.K == "delete" && ob.cls == "ok" {
+				delete(stored, ob.id)
+			}
 			if ob.cls == "ok" {
 				succ++
 				wrote = true
@@ -559,7 +631,7 @@ func runSequential(cd caseDesc, sc *scratch) result {
 	_ = me
 	final := r.finalContent()
 	res := result{dist: map[string]int{}}
-	succ, ryw := tally(res.dist, runs)
+	succ, ryw := tally(cd, res.dist, runs)
 	res.c = Case{Term: caseTerm(cd, runs, final), Desc: cd, Nontrivial: succ >= 2 || ryw > 0}
 	for _, s := range r.impl {
 		res.impl = append(res.impl, ImplViolation{What: s, Desc: cd})
@@ -638,7 +710,7 @@ func runConcurrent(cd caseDesc, sc *scratch) result {
 		cd.Order = append(cd.Order, fmt.Sprintf("g%d:%s(%s)", tr.gor, m, tr.desc.ID))
 	}
 	final := r.finalContent()
-	tally(res.dist, runs)
+	tally(cd, res.dist, runs)
 	res.dist["concurrent_txns"] += len(runs)
 	res.c = Case{Term: caseTerm(cd, runs, final), Desc: cd, Nontrivial: true, Tags: []string{"concurrent"}}
 	for _, s := range r.impl {
@@ -663,7 +735,7 @@ type isoItem struct {
 	P string `json:"p"`
 }
 
-var isoPadSmall = []int{0, 8, 8, 8, 16, 16, 40, 64, 300}
+var isoPadSmall = []int{0, 8, 8, 8, 16, 16, 40, 64}
 var isoPadAll = []int{0, 8, 8, 8, 16, 16, 40, 64, 300, 1500}
 
 func isoValue(typed bool, owner string, round int, pad int) interface{} {
@@ -689,7 +761,10 @@ type isoSlot struct {
 	pending *string // after-value of the mutation in progress
 	round   int
 	cbs     []cbRec
-	sample  []string // Coq terms (iop) of the first rounds
+	bcs     []bcRec
+	veto    bool        // the listener vetoes the call in progress (external flag)
+	lastV   interface{} // the Go value last committed
+	sample  []string    // Coq terms (iop) of the first rounds
 }
 
 type isoRun struct {
@@ -697,14 +772,19 @@ type isoRun struct {
 	slots map[string]*isoSlot
 	mu    sync.Mutex
 	fails int
-	first []isoFail
+	first []isoFail // read failures (at most 3)
+	other []isoFail // anything else (at most 2)
 }
 
 func (ir *isoRun) fail(id string, round int, where, expected, got string) {
 	ir.mu.Lock()
 	ir.fails++
-	if len(ir.first) < 5 {
-		ir.first = append(ir.first, isoFail{id, round, where, expected, got})
+	if strings.HasPrefix(where, "read does not return") {
+		if len(ir.first) < 3 {
+			ir.first = append(ir.first, isoFail{id, round, where, expected, got})
+		}
+	} else if len(ir.other) < 2 {
+		ir.other = append(ir.other, isoFail{id, round, where, expected, got})
 	}
 	ir.mu.Unlock()
 }
@@ -736,6 +816,31 @@ func (ir *isoRun) onChange(id string, before, after interface{}) {
 	}
 }
 
+// beforeChange is the only BeforeChange listener of a badgerstore isolation run.
+func (ir *isoRun) beforeChange(id string, before, after interface{}) error {
+	sl := ir.slots[id]
+	if sl == nil {
+		ir.fail(id, -1, "BeforeChange for an id nobody writes", "", "")
+		return nil
+	}
+	if g := goid(); g != sl.gid {
+		ir.fail(id, sl.round, "BeforeChange ran on another goroutine than the caller's", strconv.FormatInt(sl.gid, 10), strconv.FormatInt(g, 10))
+		return nil
+	}
+	b, a := optJSON(before), optJSON(after)
+	sl.bcs = append(sl.bcs, bcRec{1, id, b, a})
+	if showOpt(b) != showOpt(sl.last) {
+		ir.fail(id, sl.round, "BeforeChange before-value is not the last committed value", showOpt(sl.last), showOpt(b))
+	}
+	if showOpt(a) != showOpt(sl.pending) {
+		ir.fail(id, sl.round, "BeforeChange after-value is not the value being written", showOpt(sl.pending), showOpt(a))
+	}
+	if sl.veto {
+		return errVeto
+	}
+	return nil
+}
+
 func cbTerms(cbs []cbRec) string {
 	t := make([]string, len(cbs))
 	for i, c := range cbs {
@@ -764,16 +869,17 @@ func (ir *isoRun) readBack(sl *isoSlot, rt store.ReadTxn, where string, sample b
 	}
 	ex := rt.Exists()
 	if ex != (sl.last != nil) {
-		ir.fail(sl.id, sl.round, "Exists "+where+" is wrong", Bool(sl.last != nil), Bool(ex))
+		ir.fail(sl.id, sl.round, "read does not return the latest committed write: Exists "+where, Bool(sl.last != nil), Bool(ex))
 	}
 	if sample {
 		sl.sample = append(sl.sample,
-			fmt.Sprintf("IO (OValue %s) %s []", B(sl.id), res),
-			fmt.Sprintf("IO (OExists %s) (RBool %s) []", B(sl.id), Bool(ex)))
+			fmt.Sprintf("IO (OValue %s) %s [] []", B(sl.id), res),
+			fmt.Sprintf("IO (OExists %s) (RBool %s) [] []", B(sl.id), Bool(ex)))
 	}
 }
 
-const envNone = "(Env false false [])"
+const envNone = "(Env false 0%nat [])"
+const envVeto1 = "(Env false 1%nat [])"
 
 func (ir *isoRun) owner(st store.Store, g int, d isoDesc) {
 	sl := ir.slots[fmt.Sprintf("w%02d", g)]
@@ -784,8 +890,46 @@ func (ir *isoRun) owner(st store.Store, g int, d isoDesc) {
 		sl.round = round
 		sample := round < isoSampleRounds
 		w := st.Write(sl.id)
-		sl.cbs = nil
-		if sl.last != nil && r.Chance(3) {
+		sl.cbs, sl.bcs = nil, nil
+		nl := 0
+		if ir.cd.Store == "badger" {
+			nl = 1
+		}
+		// every mutation that reaches the listener stage calls the listener exactly once
+		checkBC := func(what string, reached bool) {
+			want := 0
+			if reached {
+				want = nl
+			}
+			if len(sl.bcs) != want {
+				ir.fail(sl.id, round, what+" did not call the BeforeChange listener the right number of times", strconv.Itoa(want), strconv.Itoa(len(sl.bcs)))
+			}
+		}
+		if vetoRound := r.Chance(8); vetoRound && nl > 0 && sl.last != nil {
+			// an Update the listener vetoes, half of the time to the very value that is stored
+			v := sl.lastV
+			if r.Bool() {
+				v = isoValue(ir.cd.Typed, ownerName, round, isoPadSmall[r.Intn(len(isoPadSmall))])
+			}
+			want := canon(v)
+			sl.pending, sl.veto = &want, true
+			err := w.Update(v)
+			sl.veto = false
+			res, cls := classify(err)
+			if res != "EVeto" {
+				ir.fail(sl.id, round, "vetoed Update did not fail with the veto error", "veto", cls)
+				if err == nil {
+					sl.last, sl.lastV = &want, v // the store says it committed the value
+				}
+			}
+			if len(sl.cbs) != 0 {
+				ir.fail(sl.id, round, "vetoed Update ran OnChange", "0", strconv.Itoa(len(sl.cbs)))
+			}
+			checkBC("vetoed Update", true)
+			if sample {
+				sl.sample = append(sl.sample, fmt.Sprintf("IO (OUpdate %s %s %s) %s %s %s", B(sl.id), B(want), envVeto1, res, cbTerms(sl.cbs), bcTerms(sl.bcs)))
+			}
+		} else if sl.last != nil && r.Chance(3) {
 			// delete
 			sl.pending = nil
 			before := sl.last
@@ -794,14 +938,15 @@ func (ir *isoRun) owner(st store.Store, g int, d isoDesc) {
 			if err != nil {
 				ir.fail(sl.id, round, "Delete of an existing id failed", "nil error", cls)
 			} else {
-				sl.last = nil
+				sl.last, sl.lastV = nil, nil
 				if len(sl.cbs) != 1 {
 					ir.fail(sl.id, round, "Delete did not run OnChange exactly once", "1", strconv.Itoa(len(sl.cbs)))
 				}
 			}
 			_ = before
+			checkBC("Delete", true)
 			if sample {
-				sl.sample = append(sl.sample, fmt.Sprintf("IO (ODelete %s %s) %s %s", B(sl.id), envNone, res, cbTerms(sl.cbs)))
+				sl.sample = append(sl.sample, fmt.Sprintf("IO (ODelete %s %s) %s %s %s", B(sl.id), envNone, res, cbTerms(sl.cbs), bcTerms(sl.bcs)))
 			}
 		} else {
 			pads := isoPadAll
@@ -809,6 +954,9 @@ func (ir *isoRun) owner(st store.Store, g int, d isoDesc) {
 				pads = isoPadSmall
 			}
 			v := isoValue(ir.cd.Typed, ownerName, round, pads[r.Intn(len(pads))])
+			if sl.last != nil && r.Chance(10) {
+				v = sl.lastV // write the stored value again
+			}
 			want := canon(v)
 			sl.pending = &want
 			var err error
@@ -823,13 +971,14 @@ func (ir *isoRun) owner(st store.Store, g int, d isoDesc) {
 			if err != nil {
 				ir.fail(sl.id, round, kind+" that must succeed failed", "nil error", cls)
 			} else {
-				sl.last = &want
+				sl.last, sl.lastV = &want, v
 				if len(sl.cbs) != 1 {
 					ir.fail(sl.id, round, kind+" did not run OnChange exactly once", "1", strconv.Itoa(len(sl.cbs)))
 				}
 			}
+			checkBC(kind, true)
 			if sample {
-				sl.sample = append(sl.sample, fmt.Sprintf("IO (O%s %s %s %s) %s %s", kind, B(sl.id), B(want), envNone, res, cbTerms(sl.cbs)))
+				sl.sample = append(sl.sample, fmt.Sprintf("IO (O%s %s %s %s) %s %s %s", kind, B(sl.id), B(want), envNone, res, cbTerms(sl.cbs), bcTerms(sl.bcs)))
 			}
 		}
 		sl.pending = nil
@@ -860,6 +1009,7 @@ func runIsolation(cd caseDesc) result {
 				st.SetType(isoItem{})
 			}
 			st.SetPrefix(cd.Prefix)
+			st.BeforeChange(ir.beforeChange)
 			st.OnChange(ir.onChange)
 			return st
 		}
@@ -907,21 +1057,43 @@ func runIsolation(cd caseDesc) result {
 	}
 	kind := "(SMock false)"
 	if cd.Store == "badger" {
-		kind = "(SBadger " + B(cd.Prefix) + ")"
+		kind = "(SBadger " + B(cd.Prefix) + " 1%nat)"
 	}
 	res.dist["iso_goroutines"] += d.Goroutines
 	res.dist["iso_rounds"] += d.Goroutines * d.Rounds
 	res.dist["iso_failures"] += ir.fails
-	res.c = Case{Term: fmt.Sprintf("KC %s\n %s\n []", kind, List(ops)), Desc: cd, Nontrivial: true, Tags: []string{"isolation"}}
-	for _, f := range ir.first {
-		f := f
+	all := append([]isoFail{}, ir.first...)
+	if len(all) == 0 {
+		all = ir.other
+	}
+	caseCd := cd
+	if len(all) > 0 {
+		fd := d
+		fd.Failing, fd.Failures = &all[0], ir.fails
+		caseCd.Isolation = &fd
+	}
+	res.c = Case{Term: fmt.Sprintf("KC %s\n %s\n []", kind, List(ops)), Desc: caseCd, Nontrivial: true, Tags: []string{"isolation"}}
+	for i := range all {
+		f := all[i]
 		fd := d
 		fd.Failing, fd.Failures = &f, ir.fails
 		fcd := cd
 		fcd.Isolation = &fd
+		code := "V9/V6"
+		if strings.HasPrefix(f.Where, "read does not return") {
+			code = "V8 Value did not return the current value"
+		} else if strings.HasPrefix(f.Where, "OnChange before") {
+			code = "V7"
+		} else if strings.Contains(f.Where, "BeforeChange") {
+			code = "V11"
+		} else if strings.HasPrefix(f.Where, "vetoed Update did not fail") {
+			code = "V4 a BeforeChange veto did not fail"
+		} else if strings.HasPrefix(f.Where, "vetoed Update ran OnChange") {
+			code = "V5"
+		}
 		res.impl = append(res.impl, ImplViolation{
-			What: fmt.Sprintf("%s (id %s owned by one goroutine, round %d): expected %.200s, got %.200s; %d such failures in this run",
-				f.Where, f.ID, f.Round, f.Expected, f.Got, ir.fails),
+			What: fmt.Sprintf("%s: %s (id %s, owned by one goroutine, round %d): expected %.200s, got %.200s; %d failures in this run",
+				code, f.Where, f.ID, f.Round, f.Expected, f.Got, ir.fails),
 			Desc: fcd, Tags: []string{"isolation"}})
 	}
 	return res
@@ -937,8 +1109,29 @@ func genIsolation(r *Rng, store string, typed bool, prefix string, rounds int) c
 // nil interface values are passed to Create/Update too (badgerstore used to panic in reflect; fixed in /repo). VERIF_C11_NIL=0 leaves them out.
 var nilValues = os.Getenv("VERIF_C11_NIL") != "0"
 
-func genOp(r *Rng, cd caseDesc, kinds []string) opDesc {
-	o := opDesc{K: r.Pick(kinds), N: r.Intn(9)}
+// genState is generation heuristics only (never an oracle): which ids probably exist,
+// the payload last written per id (so that repeats of the stored value are frequent) and
+// the veto switches per id that are toggled in the middle of a history.
+type genState struct {
+	shadow  map[string]bool
+	lastN   map[string]int
+	toggles map[string]int
+}
+
+func newGenState(withShadow bool) *genState {
+	gs := &genState{lastN: map[string]int{}, toggles: map[string]int{}}
+	if withShadow {
+		gs.shadow = map[string]bool{}
+	}
+	return gs
+}
+
+func genOp(r *Rng, cd caseDesc, kinds []string, id string, gs *genState) opDesc {
+	// a small pool of payloads per id: writing the value that is already stored is common
+	o := opDesc{K: r.Pick(kinds), N: r.Intn(3)}
+	if n, ok := gs.lastN[id]; ok && r.Chance(30) {
+		o.N = n
+	}
 	if o.K == "create" || o.K == "update" {
 		if r.Chance(12) {
 			o.Wrong = 1 + r.Intn(4)
@@ -947,8 +1140,16 @@ func genOp(r *Rng, cd caseDesc, kinds []string) opDesc {
 			}
 		}
 	}
-	if cd.BeforeChange && (o.K == "create" || o.K == "update" || o.K == "delete") && r.Chance(15) {
-		o.Veto = true
+	if nl := cd.nl(); nl > 0 && (o.K == "create" || o.K == "update" || o.K == "delete") {
+		if k := gs.toggles[id]; k > 0 {
+			o.VetoAt = k // the veto switch of this id is on
+		} else if r.Chance(12) {
+			o.VetoAt = 1 + r.Intn(nl)
+			if o.VetoAt == 1 && o.K != "delete" && o.Wrong == 0 && r.Bool() {
+				o.Mark = true // vetoed because of the value itself
+			}
+		}
+		o.Veto = o.vetoAt(nl) > 0
 	}
 	if cd.Store == "mock" && o.K == "create" {
 		o.NewID = r.Pick([]string{"g1", "g1", "g2", "g2", "a", "b", "c"})
@@ -966,16 +1167,25 @@ var existKinds = []string{"create", "update", "update", "update", "update", "del
 
 func genConfig(r *Rng) caseDesc {
 	if r.Chance(62) {
-		return caseDesc{Store: "badger", Typed: r.Bool(), Prefix: r.Pick([]string{"", "", "p", "x.y"}), BeforeChange: r.Chance(60)}
+		return caseDesc{Store: "badger", Typed: r.Bool(), Prefix: r.Pick([]string{"", "", "p", "x.y"}), BeforeChange: r.Chance(65), Listeners: 1 + r.Intn(3)}
 	}
 	return caseDesc{Store: "mock", NewID: r.Bool()}
 }
 
 // shadow is only a generation heuristic (which ids probably exist), never an oracle.
-func genTxn(r *Rng, cd caseDesc, ids []string, maxOps int, shadow map[string]bool) txnDesc {
+func genTxn(r *Rng, cd caseDesc, ids []string, maxOps int, gs *genState) txnDesc {
+	shadow := gs.shadow
 	t := txnDesc{ID: r.Pick(ids)}
 	if r.Chance(12) {
 		t.ID = ""
+	}
+	// flip the veto switch of this id now and then (it stays for the following transactions)
+	if nl := cd.nl(); nl > 0 && r.Chance(10) {
+		if gs.toggles[t.ID] > 0 {
+			gs.toggles[t.ID] = 0
+		} else {
+			gs.toggles[t.ID] = 1 + r.Intn(nl)
+		}
 	}
 	t.Write = r.Chance(70)
 	n := 1
@@ -997,7 +1207,10 @@ func genTxn(r *Rng, cd caseDesc, ids []string, maxOps int, shadow map[string]boo
 				}
 			}
 		}
-		o := genOp(r, cd, kinds)
+		o := genOp(r, cd, kinds, t.ID, gs)
+		if o.Wrong == 0 && !o.Veto && (o.K == "create" || o.K == "update") {
+			gs.lastN[t.ID] = o.N
+		}
 		if shadow != nil && o.Wrong == 0 && !o.Veto {
 			switch o.K {
 			case "create":
@@ -1016,9 +1229,9 @@ func genTxn(r *Rng, cd caseDesc, ids []string, maxOps int, shadow map[string]boo
 func genSequential(r *Rng) caseDesc {
 	cd := genConfig(r)
 	n := 1 + r.Intn(25)
-	shadow := map[string]bool{}
+	gs := newGenState(true)
 	for left := n; left > 0; {
-		t := genTxn(r, cd, []string{"a", "b", "c"}, left, shadow)
+		t := genTxn(r, cd, []string{"a", "b", "c"}, left, gs)
 		left -= len(t.Ops)
 		cd.Txns = append(cd.Txns, t)
 	}
@@ -1035,8 +1248,9 @@ func genConcurrent(r *Rng) caseDesc {
 	for i := 0; i < g; i++ {
 		var l []txnDesc
 		nt := 5 + r.Intn(16)
+		gs := newGenState(false)
 		for k := 0; k < nt; k++ {
-			t := genTxn(r, cd, ids, 3, nil)
+			t := genTxn(r, cd, ids, 3, gs)
 			if r.Chance(90) && t.ID == "" {
 				t.ID = r.Pick(ids)
 			}
@@ -1055,15 +1269,18 @@ func genExhaustive(cd caseDesc, maxLen int) []caseDesc {
 			txnDesc{ID: id, Write: true, Ops: []opDesc{{K: "create", N: 1, NewID: "a"}}},
 			txnDesc{ID: id, Write: true, Ops: []opDesc{{K: "create", N: 2, Wrong: 1, NewID: "g1"}}},
 			txnDesc{ID: id, Write: true, Ops: []opDesc{{K: "update", N: 3}}},
+			txnDesc{ID: id, Write: true, Ops: []opDesc{{K: "update", N: 1}}}, // the value Create stores
 			txnDesc{ID: id, Write: true, Ops: []opDesc{{K: "delete"}}},
 			txnDesc{ID: id, Write: false, Ops: []opDesc{{K: "value"}}},
 			txnDesc{ID: id, Write: true, Ops: []opDesc{{K: "exists"}}},
 		)
 		if cd.BeforeChange {
 			alpha = append(alpha,
-				txnDesc{ID: id, Write: true, Ops: []opDesc{{K: "create", N: 4, Veto: true}}},
-				txnDesc{ID: id, Write: true, Ops: []opDesc{{K: "update", N: 5, Veto: true}}},
-				txnDesc{ID: id, Write: true, Ops: []opDesc{{K: "delete", Veto: true}}},
+				txnDesc{ID: id, Write: true, Ops: []opDesc{{K: "create", N: 4, Veto: true, Mark: true}}},
+				txnDesc{ID: id, Write: true, Ops: []opDesc{{K: "create", N: 1, Veto: true, VetoAt: cd.nl()}}},
+				txnDesc{ID: id, Write: true, Ops: []opDesc{{K: "update", N: 5, Veto: true, VetoAt: 1}}},
+				txnDesc{ID: id, Write: true, Ops: []opDesc{{K: "update", N: 1, Veto: true, VetoAt: cd.nl()}}}, // stored value again, vetoed
+				txnDesc{ID: id, Write: true, Ops: []opDesc{{K: "delete", Veto: true, VetoAt: cd.nl()}}},
 			)
 		}
 	}
@@ -1129,8 +1346,8 @@ func main() {
 		thorough := o.Tier == "thorough"
 		// (a) bounded-exhaustive single-operation transactions
 		exCfgs := []caseDesc{
-			{Store: "badger", Typed: true, Prefix: "p", BeforeChange: true},
-			{Store: "badger", Typed: false, Prefix: "", BeforeChange: true},
+			{Store: "badger", Typed: true, Prefix: "p", BeforeChange: true, Listeners: 2},
+			{Store: "badger", Typed: false, Prefix: "", BeforeChange: true, Listeners: 1},
 			{Store: "mock", NewID: true},
 		}
 		exLen := 2
@@ -1164,7 +1381,7 @@ func main() {
 		// (d) isolation: 8-16 goroutines, each the only user of its own id, many write/read-back rounds
 		niso, rounds := 1, 1200
 		if thorough {
-			niso, rounds = 4, 6000
+			niso, rounds = 4, 4000
 		}
 		for i := 0; i < niso; i++ {
 			add("isolation", runIsolation(genIsolation(r, "badger", false, "iso", rounds)))
@@ -1173,6 +1390,6 @@ func main() {
 		}
 	}
 	Emit(o, "C11", "From GoRes Require Import Run.Run_C11.", "kcase",
-		"histories of Create/Update/Delete/Value/Exists through Read/Write transactions of the real badgerstore (scratch BadgerDB; typed/untyped, prefix \"\"/p/x.y, with/without a vetoing BeforeChange) and mockstore (with/without NewID): all histories of <=2 (thorough <=3) single-operation transactions over ids {a,\"\"}, random sequential histories of 1-25 operations over {a,b,c,\"\"} with 1-4 operations per transaction, and concurrent runs of 2-6 goroutines x 5-20 transactions over 2-3 ids serialised by observed lock acquisition order, and isolation runs of 8-16 goroutines each owning one id for 400-1200 (thorough up to 6000) write/read-back rounds with owner- and round-stamped values of 30-1500 bytes, checked on the spot, at the end and after reopening the database (first 8 rounds per id also go to the Coq oracle); non-trivial = at least two successful mutations, or a read of the transaction's own write, or a concurrent run; distinct by the whole observed history",
+		"histories of Create/Update/Delete/Value/Exists through Read/Write transactions of the real badgerstore (scratch BadgerDB; typed/untyped, prefix \"\"/p/x.y, with/without a vetoing BeforeChange) and mockstore (with/without NewID): all histories of <=2 (thorough <=3) single-operation transactions over ids {a,\"\"}, random sequential histories of 1-25 operations over {a,b,c,\"\"} with 1-4 operations per transaction, a pool of 3 payloads per id (Updates to the stored value are common), 1-3 BeforeChange listeners whose vetoes come from a per-call flag, a per-id switch toggled mid-history or a marker in the value, BeforeChange calls recorded per operation, and concurrent runs of 2-6 goroutines x 5-20 transactions over 2-3 ids serialised by observed lock acquisition order, and isolation runs of 8-16 goroutines each owning one id for 400-1200 (thorough up to 4000) write/read-back rounds (incl. vetoed Updates, half of them to the stored value) with owner- and round-stamped values of 30-1500 bytes, checked on the spot, at the end and after reopening the database (first 8 rounds per id also go to the Coq oracle); non-trivial = at least two successful mutations, or a read of the transaction's own write, or a concurrent run; distinct by the whole observed history",
 		cases, dist, nil, impl, 300)
 }
